@@ -314,6 +314,45 @@ def genuine_oracle(case) -> Info:
     return Info(nontrivial=len(msgs) > 1, classes=(f"{meter}:{form}", f"history:{len(msgs) - 1}"))
 
 
+# ---- a genuine message as the FIRST thing a fresh process decodes ---------------------------------------------------------------------
+
+_FRESH_PROGRAM = r"""
+import json, sys, logging
+logging.disable(logging.CRITICAL)
+payload = bytes.fromhex(%r)
+form = %r
+from han import autodecoder
+ad = autodecoder.AutoDecoder()
+if form == "payload":
+    res = ad.decode_message_payload(payload)
+else:
+    from han.common import DlmsMessage
+    res = ad.decode_message(DlmsMessage(payload))
+out = None if res is None else sorted([str(k), type(v).__name__, str(v)] for k, v in res.items())
+print("FRESH-RESULT " + json.dumps([out, ad.previous_success_decoder]))
+"""
+
+
+def fresh_case(i, tier):
+    return (NAMES[i], ["payload", "dlms"][(i + (0 if tier == "quick" else 1)) % 2]) if i < len(NAMES) else (NAMES[i - len(NAMES)], ["payload", "dlms"][(i - len(NAMES)) % 2])
+
+
+def fresh_oracle(case) -> Info:
+    from vlib.freshproc import fresh_eval
+
+    name, form = case
+    payload, own = GENUINE[name]
+    got, err = fresh_eval(_FRESH_PROGRAM % (payload.hex(), form))
+    if got is None:
+        raise RuntimeError(f"fresh interpreter failed: {err}")
+    want = INDIVIDUAL[DECODER_NAMES.index(own)](payload)
+    want_l = sorted([str(k), type(v).__name__, str(v)] for k, v in want.items())
+    if got[0] != want_l or got[1] != own:
+        diff = [x for x in (got[0] or []) if x not in want_l][:3], [x for x in want_l if x not in (got[0] or [])][:3]
+        fail(f"genuine message {name} as the first thing a fresh process decodes ({form}): decoder {got[1]} (own decoder {own}); fields only there {diff[0]}, only in the own decoder's result here {diff[1]}", sig="fresh-process")
+    return Info(nontrivial=True, classes=(f"own:{own}", f"form:{form}"), sample={"message": name, "form": form})
+
+
 def build() -> Check:
     return Check(
         pid="C12",
@@ -342,6 +381,7 @@ def build() -> Check:
         ],
         clauses=[
             EnumClause("exhaustive", size=_enum_size, case_at=enum_case, oracle=enum_oracle, doc="all histories of length <=3 over the 24-element sub-pool"),
+            EnumClause("fresh-process", size=lambda tier: len(NAMES) if tier == "quick" else 2 * len(NAMES), case_at=fresh_case, oracle=fresh_oracle, doc="every genuine pool message decoded by a fresh AutoDecoder as the first operation of a fresh interpreter (payload and DlmsMessage entry): own decoder, same fields as the own decoder gives in the warmed-up process", exhaustive=False),
             HypClause("histories", history_st, history_oracle, quick=1500, thorough=30000),
             HypClause("genuine", genuine_st, genuine_oracle, quick=3000, thorough=60000),
         ],
